@@ -2,27 +2,32 @@
 
    PART OF THE TRUSTED BASE: the terms `Definition fn_<name> : fn := ...` that translators/cxx_pure.py
    regenerates from clang's AST of /repo's functions on every run are given their meaning by this file, and
-   the theorems about them (C01/HelpersGen.v, C01/TypedChainGen.v, Cxx/CheckTypeRange.v) are only as good as this
+   the theorems about them (C01/HelpersGen.v, C01/TypedChainGen.v, C04/CheckTypeRange.v, C05/FlatIndexGen.v) are only as good as this
    reading of the standard.  It is independent of any particular function.  Target: LP64, gcc / clang on x86-64.
 
-   Types       bool, int (32), unsigned int (32), long = int64_t (64), unsigned long = uint64_t (64), and the
+   Types       bool, int (32), unsigned int (32), long = int64_t (64), unsigned long = uint64_t = size_t (64), and the
                INTEGER-VALUED part of long double (x87 extended precision: 64-bit significand, see [ld_round]).
-   Values      (type, Z) with the integer inside the range of the type.
-   Expressions names, literals, casts, unary + - ! ~, the sixteen binary operators, && || ?:, `op == "literal"`.
+   Values      (type, Z) with the integer inside the range of the type; read-only std::vector<T> objects of such values.
+   Expressions names, literals, casts, unary + - ! ~, the sixteen binary operators, && || ?:, `op == "literal"`,
+               v.size(), v.empty(), v[i] on a read-only std::vector of integers.
    Statements  return e; return; return builder(args) (uninterpreted result object); throw std::runtime_error(text);
-               if / else; T x = e; x = e; dropped diagnostic calls.  No loops, no calls, no pointers.
+               (text: literals, the string parameter, std::to_string of an integer, concatenation);
+               if / else; T x = e; x = e; x op= e; ++x; --x; { block }; while; for (executed with FUEL: at most [fuel]
+               evaluations of the condition of one loop, RNoFuel beyond that); dropped diagnostic calls.
+               No break / continue / goto, no calls, no pointers, no writes to vectors.
    Undefined   signed overflow of + - * and unary - [expr.pre]/4; / and % by zero, and / and % whose quotient
    behaviour   is not representable (INT64_MIN / -1, INT64_MIN % -1) [expr.mul]/4; shift count negative or
    (RUB)       >= width of the promoted left operand [expr.shift]/1; << of a negative signed value or with a
                result not representable in the corresponding unsigned type [expr.shift]/2; conversion of a long
-               double outside the target integer type [conv.fpint]/1; flowing off the end of a value-returning
-               function [stmt.return]/2 is reported separately (RFallOff).
+               double outside the target integer type [conv.fpint]/1; v[i] with i >= v.size() [sequence.reqmts] Table 88
+               (operator[] is *(a.begin() + n), which is undefined outside the sequence); flowing off the end of a
+               value-returning function [stmt.return]/2 is reported separately (RFallOff).
    Implement-  conversion of an out-of-range value to a signed type [conv.integral]/3: modulo 2^n (two's
    ation-      complement; gcc and clang document this, C++20 requires it); >> of a negative signed value
    defined     [expr.shift]/3: arithmetic shift = floor (a / 2^n) (gcc, clang); & | ^ ~ on signed operands act
                on the two's-complement representation; the format and rounding of long double.
    Everything is total and computable ([vm_compute] evaluates [run] on concrete arguments) and extractable. *)
-From Coq Require Import ZArith Bool String List.
+From Coq Require Import ZArith Bool String List DecimalString.
 Import ListNotations.
 Local Open Scope Z_scope.
 
@@ -117,10 +122,13 @@ Inductive expr :=
 | EBin (o : binop) (a b : expr)
 | ELAnd (a b : expr) | ELOr (a b : expr)
 | ECond (c a b : expr)
-| EStrEq (x : string) (lit : string). (* `x == "lit"` on the function's std::string parameter *)
+| EStrEq (x : string) (lit : string)  (* `x == "lit"` on the function's std::string parameter *)
+| EVecSize (v : string)              (* v.size() of a std::vector: size_type = unsigned long [vector.capacity] *)
+| EVecEmpty (v : string)             (* v.empty() = (v.size() == 0) [vector.capacity] *)
+| EVecAt (v : string) (i : expr).    (* v[i] read as a prvalue; i initialises the parameter of type size_type *)
 
-(* the text of a std::runtime_error: "lit", the string parameter, "lit" + op *)
-Inductive msg := MLit (s : string) | MStr (x : string) | MCat (a b : msg).
+(* the text of a std::runtime_error: "lit", the string parameter, a + b, std::to_string(e) of an integer e *)
+Inductive msg := MLit (s : string) | MStr (x : string) | MCat (a b : msg) | MDec (e : expr).
 
 Inductive stmt :=
 | SSkip
@@ -132,10 +140,29 @@ Inductive stmt :=
 | SEffect (what : string)            (* a call whose only effect is diagnostic output (error_msg / debug_msg): skip *)
 | SAssign (x : string) (e : expr)    (* x = e; as a statement, x a local variable or parameter [expr.ass] *)
 | SReturnVoid                        (* return; *)
-| SReturnCall (tag : string) (args : list expr).
+| SReturnCall (tag : string) (args : list expr)
                                      (* return tag(args); where tag builds the result object and is not interpreted *)
+| SBlock (s : stmt)                  (* { s } : the names declared in s go out of scope at the closing brace [stmt.block] *)
+| SWhile (c : expr) (body : stmt).   (* while (c) body [stmt.while] *)
+
+(* Derived forms, defined by the equivalences the standard itself gives (x a local variable or parameter, so that
+   "evaluated only once" makes no difference):
+   [expr.ass]/7       E1 op= E2 behaves as E1 = E1 op E2 (the operation is done in the common type of the promoted operands,
+                      the result is converted back to the type of E1);
+   [expr.pre.incr]/1  ++x is x += 1, /2 --x is x -= 1; as a discarded-value expression x++ / x-- have the same effect
+                      [expr.post.incr]/1 (not for bool, which the translator does not accept here);
+   [stmt.for]/1       for (init cond; step) body is { init while (cond) { body step; } } when body contains no continue
+                      (there is no continue in the fragment); the body is a block scope of its own [stmt.iter]/2. *)
+Definition SAssignOp (o : binop) (x : string) (e : expr) : stmt := SAssign x (EBin o (EVar x) e).
+Definition SIncr (x : string) : stmt := SAssignOp BAdd x (ELit TInt 1).
+Definition SDecr (x : string) : stmt := SAssignOp BSub x (ELit TInt 1).
+Definition SFor (init : stmt) (c : expr) (step : stmt) (body : stmt) : stmt :=
+  SBlock (SSeq init (SWhile c (SSeq (SBlock body) step))).
 
 Record fn := { f_name : string; f_ret : ity; f_sparam : string; f_params : list (string * ity); f_body : stmt }.
+(* a function that also reads std::vector objects (const std::vector<T> & parameters; data members of *this in a const member
+   function, where they are const too [class.this]): their names and element types *)
+Record vfn := { v_fn : fn; v_vecs : list (string * ity) }.
 
 (* ---------------------------------------------------------------- expressions *)
 Inductive eres := EV (v : value) | EUB (what : string) | EStuck (what : string).
@@ -145,6 +172,14 @@ Inductive eres := EV (v : value) | EUB (what : string) | EStuck (what : string).
 Definition env := list (string * value).
 Fixpoint lookup (x : string) (en : env) : option value :=
   match en with [] => None | (y, v) :: r => if String.eqb x y then Some v else lookup x r end.
+
+(* the std::vector<T> objects in reach: name -> (T, elements).  Nothing in the fragment modifies a vector, so they are
+   not part of the state. *)
+Definition vecs := list (string * (ity * list Z)).
+Fixpoint vlookup (x : string) (ve : vecs) : option (ity * list Z) :=
+  match ve with [] => None | (y, v) :: r => if String.eqb x y then Some v else vlookup x r end.
+Definition vec_len (l : list Z) : Z := Z.of_nat (List.length l).
+Definition vec_nth (l : list Z) (i : Z) : Z := nth (Z.to_nat i) l 0.
 
 (* the ways to reach undefined behaviour *)
 Definition ub_add : string := "signed overflow in +".
@@ -159,6 +194,7 @@ Definition ub_shlneg : string := "left shift of a negative value".
 Definition ub_shlovf : string := "left shift result not representable".
 Definition ub_neg : string := "signed overflow in unary -".
 Definition ub_fpint : string := "floating value not representable in the integer type".
+Definition ub_index : string := "vector subscript not less than size()".
 
 (* signed result: must be representable [expr.pre]/4; unsigned: modulo 2^n [basic.fundamental]/4 *)
 Definition fit (t : ity) (r : Z) (what : string) : eres :=
@@ -230,25 +266,27 @@ Definition unop_sem (o : unop) (v : value) : eres :=
   end.
 
 (* static type of an expression (needed for ?: whose type depends on the branch not taken, [expr.cond]/6) *)
-Fixpoint type_of (en : env) (e : expr) : option ity :=
+Fixpoint type_of (ve : vecs) (en : env) (e : expr) : option ity :=
   match e with
   | EVar x => option_map fst (lookup x en)
   | ELit t _ => Some t
   | ECast t _ => Some t
   | EUn UNot _ => Some TBool
-  | EUn _ a => option_map promote (type_of en a)
+  | EUn _ a => option_map promote (type_of ve en a)
   | EBin o a b =>
-      match type_of en a, type_of en b with
+      match type_of ve en a, type_of ve en b with
       | Some ta, Some tb => Some (if is_cmp o then TBool else if is_shift o then promote ta
                                   else common (promote ta) (promote tb))
       | _, _ => None
       end
-  | ELAnd _ _ | ELOr _ _ | EStrEq _ _ => Some TBool
+  | ELAnd _ _ | ELOr _ _ | EStrEq _ _ | EVecEmpty _ => Some TBool
   | ECond _ a b =>
-      match type_of en a, type_of en b with
+      match type_of ve en a, type_of ve en b with
       | Some ta, Some tb => Some (if ity_eqb ta tb then ta else common (promote ta) (promote tb))
       | _, _ => None
       end
+  | EVecSize _ => Some TULong
+  | EVecAt v _ => option_map fst (vlookup v ve)
   end.
 
 (* conversion of a value of type ta to type t: between integer types and to long double [conv]; from an (integer-valued)
@@ -262,36 +300,39 @@ Definition cast (ta t : ity) (z : Z) : eres :=
 (* the test `op == "lit"` (a function of its own so that proofs can keep it folded while names are compared) *)
 Definition op_is (sp : string * string) (lit : string) : bool := String.eqb (snd sp) lit.
 
+(* v[n], n already converted to size_type: *(v.begin() + n), defined for n < v.size() only *)
+Definition vec_at (t : ity) (l : list Z) (n : Z) : eres := if n <? vec_len l then EV (t, vec_nth l n) else EUB ub_index.
+
 (* sp = (name of the std::string parameter, its value). Operands have no side effects, so the unspecified
    evaluation order of the operands of a binary operator cannot be observed. *)
-Fixpoint eval (sp : string * string) (en : env) (e : expr) : eres :=
+Fixpoint eval (ve : vecs) (sp : string * string) (en : env) (e : expr) : eres :=
   match e with
   | EVar x => match lookup x en with Some v => EV v | None => EStuck ("unbound name " ++ x) end
   | ELit t z => if lit_ok t z then EV (t, z) else EStuck "literal outside its type"
-  | ECast t a => match eval sp en a with EV (ta, z) => cast ta t z | r => r end
-  | EUn o a => match eval sp en a with EV v => unop_sem o v | r => r end
+  | ECast t a => match eval ve sp en a with EV (ta, z) => cast ta t z | r => r end
+  | EUn o a => match eval ve sp en a with EV v => unop_sem o v | r => r end
   | EBin o a b =>
-      match eval sp en a with
-      | EV va => match eval sp en b with EV vb => binop_sem o va vb | r => r end
+      match eval ve sp en a with
+      | EV va => match eval ve sp en b with EV vb => binop_sem o va vb | r => r end
       | r => r
       end
   | ELAnd a b =>                                                                  (* [expr.log.and]: short circuit *)
-      match eval sp en a with
+      match eval ve sp en a with
       | EV (_, za) => if nonzero za
-                      then match eval sp en b with EV (_, zb) => EV (TBool, conv TBool zb) | r => r end
+                      then match eval ve sp en b with EV (_, zb) => EV (TBool, conv TBool zb) | r => r end
                       else EV (TBool, 0)
       | r => r
       end
   | ELOr a b =>                                                                   (* [expr.log.or] *)
-      match eval sp en a with
+      match eval ve sp en a with
       | EV (_, za) => if nonzero za then EV (TBool, 1)
-                      else match eval sp en b with EV (_, zb) => EV (TBool, conv TBool zb) | r => r end
+                      else match eval ve sp en b with EV (_, zb) => EV (TBool, conv TBool zb) | r => r end
       | r => r
       end
   | ECond c a b =>                                                                (* [expr.cond]: only one branch *)
-      match eval sp en c, type_of en e with
+      match eval ve sp en c, type_of ve en e with
       | EV (_, zc), Some t =>
-          match (if nonzero zc then eval sp en a else eval sp en b) with
+          match (if nonzero zc then eval ve sp en a else eval ve sp en b) with
           | EV (_, z) => EV (t, conv t z)
           | r => r
           end
@@ -300,6 +341,15 @@ Fixpoint eval (sp : string * string) (en : env) (e : expr) : eres :=
       end
   | EStrEq x lit => if String.eqb x (fst sp) then EV (TBool, b2z (op_is sp lit))
                     else EStuck ("not the string parameter: " ++ x)
+  | EVecSize v => match vlookup v ve with                                         (* [vector.capacity] *)
+                  | Some (_, l) => EV (TULong, vec_len l) | None => EStuck ("unbound vector " ++ v) end
+  | EVecEmpty v => match vlookup v ve with
+                   | Some (_, l) => EV (TBool, b2z (vec_len l =? 0)) | None => EStuck ("unbound vector " ++ v) end
+  | EVecAt v i =>                    (* the argument is converted to the parameter type size_type [expr.call]/7 *)
+      match vlookup v ve with
+      | Some (t, l) => match eval ve sp en i with EV (_, z) => vec_at t l (conv TULong z) | r => r end
+      | None => EStuck ("unbound vector " ++ v)
+      end
   end.
 
 (* ---------------------------------------------------------------- statements and functions *)
@@ -310,14 +360,19 @@ Inductive result :=
 | RFallOff                (* control reached the closing brace (undefined behaviour for a non-void function) *)
 | RStuck (what : string)  (* not a well-formed call of a function of the fragment *)
 | RCall (tag : string) (vs : list value)  (* the result object tag(vs) is returned (tag is not interpreted) *)
-| RVoid.                  (* `return;` (a void function may also simply reach its end: RFallOff) *)
+| RVoid                   (* `return;` (a void function may also simply reach its end: RFallOff) *)
+| RNoFuel.                (* a loop was not finished within the fuel given to [run_vec]: says nothing about the C++ *)
 Inductive outcome := ONext (en : env) | ODone (r : result).
 
-Fixpoint msg_text (sp : string * string) (m : msg) : option string :=
+(* std::to_string(int / long / unsigned long): the decimal representation, as by sprintf "%d" / "%ld" / "%lu"
+   [string.conversions]/7 *)
+Definition dec_string (z : Z) : string := NilZero.string_of_int (Z.to_int z).
+Fixpoint msg_text (ve : vecs) (sp : string * string) (en : env) (m : msg) : option string :=
   match m with
   | MLit s => Some s
   | MStr x => if String.eqb x (fst sp) then Some (snd sp) else None
-  | MCat a b => match msg_text sp a, msg_text sp b with Some x, Some y => Some (x ++ y)%string | _, _ => None end
+  | MCat a b => match msg_text ve sp en a, msg_text ve sp en b with Some x, Some y => Some (x ++ y)%string | _, _ => None end
+  | MDec e => match eval ve sp en e with EV (_, z) => Some (dec_string z) | _ => None end
   end.
 
 Definition lift (r : eres) (k : Z -> outcome) : outcome :=
@@ -330,36 +385,38 @@ Fixpoint update (x : string) (v : value) (en : env) : env :=
 Definition leave (outer inner : env) : env := skipn (List.length inner - List.length outer) inner.
 
 (* the arguments of a result constructor (no side effects: their unspecified order cannot be observed) *)
-Fixpoint eval_args (sp : string * string) (en : env) (es : list expr) : result + list value :=
+Fixpoint eval_args (ve : vecs) (sp : string * string) (en : env) (es : list expr) : result + list value :=
   match es with
   | [] => inr []
-  | e :: r => match eval sp en e with
-              | EV v => match eval_args sp en r with inr vs => inr (v :: vs) | inl x => inl x end
+  | e :: r => match eval ve sp en e with
+              | EV v => match eval_args ve sp en r with inr vs => inr (v :: vs) | inl x => inl x end
               | EUB w => inl (RUB w)
               | EStuck w => inl (RStuck w)
               end
   end.
 
-Fixpoint exec (sp : string * string) (rt : ity) (en : env) (s : stmt) : outcome :=
+(* [fuel]: how often the condition of ONE execution of a while statement may be evaluated (every loop, also a nested one,
+   starts with the full amount); an iteration that would need more yields RNoFuel *)
+Fixpoint exec (ve : vecs) (fuel : nat) (sp : string * string) (rt : ity) (en : env) (s : stmt) {struct s} : outcome :=
   match s with
   | SSkip | SEffect _ => ONext en
-  | SSeq a b => match exec sp rt en a with ONext en' => exec sp rt en' b | d => d end
-  | SReturn e => match eval sp en e with
+  | SSeq a b => match exec ve fuel sp rt en a with ONext en' => exec ve fuel sp rt en' b | d => d end
+  | SReturn e => match eval ve sp en e with
                  | EV (te, z) => ODone (match cast te rt z with EV v => RVal v | EUB w => RUB w | EStuck w => RStuck w end)
                  | EUB w => ODone (RUB w) | EStuck w => ODone (RStuck w)
                  end
-  | SThrow m => ODone (match msg_text sp m with Some t => RThrow t | None => RStuck "exception text" end)
+  | SThrow m => ODone (match msg_text ve sp en m with Some t => RThrow t | None => RStuck "exception text" end)
   | SIf c a b =>                     (* the condition is contextually converted to bool [stmt.select]; names
                                         declared in a branch go out of scope at its end [basic.scope.block] *)
-      lift (eval sp en c) (fun z =>
-        match (if nonzero z then exec sp rt en a else exec sp rt en b) with ONext en' => ONext (leave en en') | d => d end)
-  | SDecl t x e => match eval sp en e with
+      lift (eval ve sp en c) (fun z =>
+        match (if nonzero z then exec ve fuel sp rt en a else exec ve fuel sp rt en b) with ONext en' => ONext (leave en en') | d => d end)
+  | SDecl t x e => match eval ve sp en e with
                    | EV (te, z) => match cast te t z with
                                    | EV v => ONext ((x, v) :: en) | EUB w => ODone (RUB w) | EStuck w => ODone (RStuck w)
                                    end
                    | EUB w => ODone (RUB w) | EStuck w => ODone (RStuck w)
                    end
-  | SAssign x e => match eval sp en e, lookup x en with
+  | SAssign x e => match eval ve sp en e, lookup x en with
                    | EV (te, z), Some (t, _) =>
                        match cast te t z with
                        | EV v => ONext (update x v en) | EUB w => ODone (RUB w) | EStuck w => ODone (RStuck w)
@@ -368,7 +425,19 @@ Fixpoint exec (sp : string * string) (rt : ity) (en : env) (s : stmt) : outcome 
                    | EUB w, _ => ODone (RUB w) | EStuck w, _ => ODone (RStuck w)
                    end
   | SReturnVoid => ODone RVoid
-  | SReturnCall tag es => ODone (match eval_args sp en es with inr vs => RCall tag vs | inl r => r end)
+  | SReturnCall tag es => ODone (match eval_args ve sp en es with inr vs => RCall tag vs | inl r => r end)
+  | SBlock a => match exec ve fuel sp rt en a with ONext en' => ONext (leave en en') | d => d end
+  | SWhile c b =>                    (* [stmt.while]: the condition (contextually converted to bool) is tested before each
+                                        execution of the body; the body is a block scope entered and left on every
+                                        iteration [stmt.iter]/2; return / throw inside the body leave the loop *)
+      (fix loop (n : nat) (en : env) {struct n} : outcome :=
+         match n with
+         | O => ODone RNoFuel
+         | S n' => lift (eval ve sp en c) (fun z =>
+                     if nonzero z
+                     then match exec ve fuel sp rt en b with ONext en' => loop n' (leave en en') | d => d end
+                     else ONext en)
+         end) fuel en
   end.
 
 (* arguments are given with the parameter's name and must have exactly the parameter's type and a value inside it *)
@@ -381,8 +450,28 @@ Fixpoint bind (ps : list (string * ity)) (args : list (string * value)) : option
   | _, _ => None
   end.
 
+(* a function without vectors and loops *)
 Definition run (f : fn) (op : string) (args : list (string * value)) : result :=
   match bind (f_params f) args with
   | None => RStuck "arguments do not match the parameters"
-  | Some en => match exec (f_sparam f, op) (f_ret f) en (f_body f) with ONext _ => RFallOff | ODone r => r end
+  | Some en => match exec [] 0 (f_sparam f, op) (f_ret f) en (f_body f) with ONext _ => RFallOff | ODone r => r end
+  end.
+
+(* vector arguments: exactly the declared element type, every element inside it, at most PTRDIFF_MAX elements
+   (max_size() of any std::vector is not larger [vector.capacity]; libstdc++: PTRDIFF_MAX / sizeof (T)) *)
+Definition vec_ok (t : ity) (l : list Z) : bool := forallb (in_range t) l && (vec_len l <=? tmax TLong).
+Fixpoint bind_vecs (ps : list (string * ity)) (args : vecs) : option vecs :=
+  match ps, args with
+  | [], [] => Some []
+  | (x, t) :: ps', (y, (u, l)) :: args' =>
+      if String.eqb x y && ity_eqb t u && vec_ok t l
+      then option_map (cons (x, (t, l))) (bind_vecs ps' args') else None
+  | _, _ => None
+  end.
+
+Definition run_vec (fuel : nat) (f : vfn) (op : string) (vargs : vecs) (args : list (string * value)) : result :=
+  match bind_vecs (v_vecs f) vargs, bind (f_params (v_fn f)) args with
+  | Some ve, Some en =>
+      match exec ve fuel (f_sparam (v_fn f), op) (f_ret (v_fn f)) en (f_body (v_fn f)) with ONext _ => RFallOff | ODone r => r end
+  | _, _ => RStuck "arguments do not match the parameters"
   end.
